@@ -163,6 +163,8 @@ def do_read(entry, text, tmp, **kw):
     cls = RCLASS[cname]
     base = fn.split("[")[0]
     f = getattr(cls, base)
+    if base.startswith("yield_from"):
+        return list(f(io.StringIO(text), **kw))
     if "[StringIO]" in fn:
         return f(io.StringIO(text), **kw)
     if "[path]" in fn:
@@ -657,6 +659,192 @@ def gen_units(seed, thorough):
 
 
 # =================================================================================================
+# RH : multi-frame texts whose frames are DIFFERENT geometries (same or different atom count)
+#      - per-stream state of the multi-frame reader must not leak from one frame into the next
+# =================================================================================================
+GEOM_CLASSES = ("CartesianGeometry", "Structure", "Molecule")
+HET_ALL = [f"{c}.{f}" for c in GEOM_CLASSES for f in ("loads_all_xyz", "load_all_xyz[StringIO]", "load_all_xyz[path]", "yield_from_xyz")]
+HET_FIRST = [f"{c}.{f}" for c in GEOM_CLASSES for f in ("loads_xyz", "load_xyz[StringIO]", "load_xyz[path]")]
+HET_SOURCES = ["harness-formatter"] + [f"molli:{c}.dumps_xyz" for c in GEOM_CLASSES]
+_CLAUSE = {"atom-count-changed": "atom-count", "element-changed": "elements", "atoms-reordered": "elements", "dummy-flag-wrong": "dummy-flags"}
+
+
+def clause_of(sym):
+    return _CLAUSE.get(sym, "coords" if sym.startswith("coords-") else sym)
+
+
+def het_frame_symptoms(fr, g, from_harness):
+    """one frame of the spec against one geometry that was read -> [(symptom, detail)]"""
+    pseudo = {"atoms": fr["atoms"], "frames": [fr["xyz"]]}
+    out = cmp_frame(pseudo, 0, g.atoms, g.coords, 1e-6)
+    if from_harness and len(g.atoms) == len(fr["atoms"]):
+        # the harness writes '*' for a dummy: the reader documents '*' -> AtomType.Dummy; any other symbol is a real atom
+        for i, (z, t) in enumerate(fr["atoms"]):
+            is_d = int(g.atoms[i].atype) == DUMMY
+            if is_d != (t == DUMMY):
+                out.append(("dummy-flag-wrong", f"atom {i}: written {'*' if t == DUMMY else Element(z).name!r}, read with atype {g.atoms[i].atype!r}"))
+                break
+    return out
+
+
+def het_text(frames, source):
+    if source == "harness-formatter":
+        out = []
+        for fi, fr in enumerate(frames):
+            out.append(f"{len(fr['atoms'])}\nframe {fi}\n")
+            for (z, t), p in zip(fr["atoms"], fr["xyz"]):
+                sym = "*" if t == DUMMY else Element(z).name
+                out.append(f"{sym:<3} {p[0]:.6f} {p[1]:.6f} {p[2]:.6f}\n")
+        return "".join(out)
+    cname = source.split(":")[1].split(".")[0]
+    kind = {v: k for k, v in KINDNAME.items()}[cname]
+    return "".join(build(mkspec(kind, f"f{fi}", fr["atoms"], [fr["xyz"]])).dumps_xyz() for fi, fr in enumerate(frames))
+
+
+def check_hetero(ctx, frames):
+    """frames: [{"atoms": [[Z, atype]..], "xyz": [[x,y,z]..]}, ..] (2..k frames, each its own geometry)"""
+    tmp = Path(ctx.scratch) / f"c08-{os.getpid()}-h.xyz"
+    k = len(frames)
+    case = {"layer": "RH", "frames": frames}
+    ctx.count(evaluations=1, states=1, traces=1)
+    if any(frames[i]["atoms"] != frames[i - 1]["atoms"] for i in range(1, k)):
+        ctx.nontrivial(("RH", digest(frames)))
+    cells, detail = {}, {}
+
+    def add(sym, src, r, d):
+        cells.setdefault(sym, set()).add((src, r))
+        detail.setdefault((sym, src, r), d)
+
+    texts = []
+    for src in HET_SOURCES:
+        ctx.count(transitions=k if src != "harness-formatter" else 0)
+        try:
+            text = het_text(frames, src)
+        except Exception as e:
+            add(f"write-raised-{exc(e)}", src, "-", f"{exc(e)}: {e}")
+            continue
+        texts.append(text)
+        harness = src == "harness-formatter"
+        tmp.write_text(text, encoding="utf-8", newline="")
+        for r in HET_ALL + HET_FIRST:
+            ctx.count(transitions=1)
+            try:
+                res = do_read(r, text, tmp)
+            except Exception as e:
+                add(f"read-raised-{exc(e)}", src, r, f"{exc(e)}: {e}")
+                continue
+            cname = r.split(".")[0]
+            if r in HET_FIRST:
+                if not isinstance(res, RCLASS[cname]):
+                    add("wrong-result-type", src, r, type(res).__name__)
+                    continue
+                sy = het_frame_symptoms(frames[0], res, harness)
+                if sy:
+                    later = [j for j in range(1, k) if frames[j] != frames[0] and not het_frame_symptoms(frames[j], res, harness)]
+                    if later:
+                        add("first-frame-reader-returned-a-later-frame", src, r, f"frame {later[0]} of {k} returned instead of frame 0")
+                    else:
+                        for s_, d in sy:
+                            add(s_, src, r, d)
+                continue
+            if not isinstance(res, list) or any(not isinstance(g, RCLASS[cname]) for g in res):
+                add("wrong-result-type", src, r, type(res).__name__)
+                continue
+            if len(res) != k:
+                add("frame-count-changed", src, r, f"{len(res)} geometries read, {k} frames written")
+                continue
+            for fi in range(k):
+                sy = het_frame_symptoms(frames[fi], res[fi], harness)
+                if not sy:
+                    continue
+                # which clauses hold for an EARLIER frame of the text but not for this one -> state leaked between frames
+                mine = {clause_of(s_) for s_, _ in sy}
+                leaked = set()
+                for j in range(fi):
+                    theirs = {clause_of(s_) for s_, _ in het_frame_symptoms(frames[j], res[fi], harness)}
+                    if "atom-count" not in theirs:
+                        leaked |= mine - theirs
+                for s_, d in sy:
+                    c = clause_of(s_)
+                    if c in leaked:
+                        add(f"frame-has-the-{c}-of-an-earlier-frame", src, r, f"frame {fi} of {k}: {d}")
+                    else:
+                        add(s_, src, r, f"frame {fi} of {k}: {d}")
+    ctx.outcome(("RH", digest(texts), tuple(sorted(cells))))
+
+    def rdesc(rs):
+        rs = set(rs)
+        if rs == set(HET_ALL + HET_FIRST):
+            return "*"
+        if rs == set(HET_ALL):
+            return "all-frame-readers"
+        if rs == set(HET_FIRST):
+            return "first-frame-readers"
+        return _desc(sorted(rs, key=(HET_ALL + HET_FIRST + ["-"]).index), HET_ALL + HET_FIRST)
+
+    for sym in sorted(cells):
+        for gs, gr in product_groups(cells[sym], 2):
+            sd = "*" if set(gs) == set(HET_SOURCES) else ",".join(gs)
+            ctx.violation(
+                f"rt-hetero|{sym}|src={sd}|r={rdesc(gr)}",
+                f"{k}-frame xyz text of different geometries ({gs[0]}), read by {gr[0]}: {detail[(sym, gs[0], gr[0])]}",
+                case,
+                repro=repro_hetero(frames, gr[0]),
+            )
+
+
+def repro_hetero(frames, r):
+    text = het_text(frames, "harness-formatter")
+    cname, fn = r.split(".", 1)
+    base = fn.split("[")[0]
+    arg = "text" if (base.startswith("loads")) else "io.StringIO(text)"
+    return (
+        "import io, molli as ml\n"
+        f"text = {text!r}\n"
+        f"r = ml.{cname}.{base}({arg})\n"
+        "r = list(r) if not hasattr(r, 'atoms') else [r]\n"
+        "for g in r: print([a.element.name for a in g.atoms], [a.atype.name for a in g.atoms], g.coords.tolist())"
+    )
+
+
+def het_alphabet(seed, thorough):
+    """frames of EQUAL atom count with different element sequences / permutations / dummy positions, and
+    pairwise different coordinates; by size"""
+    H, C, N, O, X = (1, REG), (6, REG), (7, REG), (8, REG), (0, DUMMY)
+    by_n = {
+        1: [[H], [C], [X], [O]],
+        2: [[H, C], [C, H], [X, H], [O, O]],
+        3: [[H, C, N], [H, N, C], [N, C, H], [O, H, H], [X, C, N]] + ([[C, O, O], [H, O, H]] if thorough else []),
+    }
+    out = {}
+    fid = 0
+    for n in (1, 2, 3):
+        out[n] = []
+        for atoms in rot(by_n[n], seed):
+            fid += 1
+            xyz = [[fid * 1.5 + a * 0.25 + seed * 0.125, -(fid * 2.0) + a, 0.001 * fid * (a + 1)] for a in range(n)]
+            out[n].append({"atoms": [list(a) for a in atoms], "xyz": xyz})
+    return out
+
+
+def gen_RH(seed, thorough):
+    A = het_alphabet(seed, thorough)
+    lengths = (2, 3, 4) if thorough else (2, 3)
+    for n in (1, 2, 3):
+        for L in lengths:
+            if L == 4 and n == 3:
+                continue
+            for seq in itertools.product(range(len(A[n])), repeat=L):
+                yield [A[n][i] for i in seq]
+    # sizes mixed in one text (the count changes between some frames and not between others)
+    mixed = [A[1][0], A[1][1], A[2][0], A[2][1], A[3][0], A[3][1]]
+    for L in (2, 3):
+        for seq in itertools.product(range(len(mixed)), repeat=L):
+            if len({len(mixed[i]["atoms"]) for i in seq}) > 1:
+                yield [mixed[i] for i in seq]
+
+
+# =================================================================================================
 def _part(ctx, part):
     layer, i, nparts = part
     seed, thorough = ctx.seed, ctx.thorough
@@ -668,6 +856,15 @@ def _part(ctx, part):
             ctx.add_note(f"cases_{layer}")
             if idx == i and i < 2:
                 ctx.sample({"layer": layer, "gspec": g})
+        return
+    if layer == "RH":
+        for idx, frames in enumerate(gen_RH(seed, thorough)):
+            if idx % nparts != i:
+                continue
+            check_hetero(ctx, frames)
+            ctx.add_note("cases_RH")
+            if idx == i and i < 1:
+                ctx.sample({"layer": "RH", "frames": frames})
         return
     if layer == "UNITS":
         for idx, (fmt, atoms, frames) in enumerate(gen_units(seed, thorough)):
@@ -697,6 +894,9 @@ def run(ctx):
         "loads_xyz/load_xyz of a multi-frame text return the first frame; loads_all/ConformerEnsemble return all frames in order",
         "unit check: |got - expected| <= 1e-5 * |expected| per coordinate (the library's Bohr constant 1.88973 has 6 digits); expected = file value x harness table (CODATA 2022 Bohr radius 0.529177210544 A; pm 0.01; nm 10; fm 1e-5)",
         "unit texts are written by the harness's own formatter with 10 decimals; the reference is the number as it stands in the file",
+        "layer RH (multi-frame texts of DIFFERENT geometries): texts come from the harness's formatter ('*' for a dummy) and from molli (each geometry "
+        "dumped, texts concatenated); every frame must come back with its own count, order, elements, coordinates; '*' must read as AtomType.Dummy and a "
+        "real symbol as a non-dummy (reader's documented convention) - checked on harness texts only, molli itself writes a dummy as 'Unknown'",
     ]
     ctx.bound.update(
         {
@@ -708,13 +908,16 @@ def run(ctx):
             "writer_entries": WRITERS,
             "xyz_reader_entries": XYZ_READERS,
             "mol2_reader_entries": MOL2_READERS,
+            "hetero_multi_frame_readers": HET_ALL + HET_FIRST,
+            "hetero_text_sources": HET_SOURCES,
+            "hetero_max_frames": 4 if thorough else 3,
             "unit_names": unit_names(),
             "angstrom_per_unit": ANGSTROM_PER,
         }
     )
     np_ = 16 if thorough else 8
     parts = []
-    for layer in ("R0", "R4", "R3", "UNITS", "R2", "R1"):
+    for layer in ("R0", "R4", "R3", "RH", "UNITS", "R2", "R1"):
         n = 1 if layer == "R0" else np_ * (4 if (thorough and layer in ("R1", "R2")) else 1)
         parts += [(layer, i, n) for i in range(n)]
     ctx.pmap(_part, parts)
@@ -723,6 +926,8 @@ def run(ctx):
 def replay(ctx, case):
     if case["layer"] == "RT":
         check_geom(ctx, normspec(case["gspec"]), kinds=case.get("kinds"))
+    elif case["layer"] == "RH":
+        check_hetero(ctx, [{"atoms": [[int(a[0]), int(a[1])] for a in fr["atoms"]], "xyz": [[fl(c) for c in p] for p in fr["xyz"]]} for fr in case["frames"]])
     elif case["layer"] == "UNITS":
         atoms = [(int(a[0]), int(a[1])) for a in case["atoms"]]
         frames = [[[fl(c) for c in p] for p in f] for f in case["frames"]]
